@@ -41,9 +41,9 @@
 (***************************************************************************)
 EXTENDS Integers, Sequences, FiniteSets, TLC
 
-CONSTANTS MaxN,       \* range lengths 0..MaxN
+CONSTANTS Lengths,    \* set of range lengths explored
           Variants,   \* subset of {"orig", "fixed"} explored in this run
-          PosMode     \* "few" | "all": which chunk boundaries get match positions
+          PosMode     \* "none" (no match only) | "few" | "all": which chunk boundaries get match positions
 
 VARIABLES var,        \* chunk arithmetic variant of this behaviour
           n,          \* std::distance(begin_it, end_it)
@@ -93,12 +93,13 @@ ChunkSel(nn) == IF PosMode = "all" THEN 0..(NumChunks(nn) - 1)
                 ELSE {0, 1, 2, 15, 16, 17, NumChunks(nn) - 2, NumChunks(nn) - 1} \cap (0..(NumChunks(nn) - 1))
 Pos(nn) == ({0, nn - 1} \cup {CBegin(v, nn, i) + d : v \in {"orig", "fixed"}, i \in ChunkSel(nn), d \in {-1, 0, 1}})
            \cap (0..(nn - 1))
-MatchSets(nn) == {{}} \cup {{p} : p \in Pos(nn)} \cup {{p, nn - 1} : p \in Pos(nn)}
+MatchSets(nn) == IF PosMode = "none" THEN {{}} ELSE
+                 {{}} \cup {{p} : p \in Pos(nn)} \cup {{p, nn - 1} : p \in Pos(nn)}
                  \cup (IF PosMode = "all" THEN {{p, Lo(p + ChunkSize("fixed", nn), nn - 1)} : p \in Pos(nn)} ELSE {})
                  \cup (IF nn <= 40 /\ nn > 0 THEN {0..(nn - 1)} ELSE {})
 
 Init == /\ var \in Variants
-        /\ n \in 0..MaxN
+        /\ n \in Lengths
         /\ M \in MatchSets(n)
         /\ pol \in {"seq", "par"}
         /\ pc = "start" /\ idx = 0 /\ blockEnd = 0 /\ stopReq = FALSE /\ found = FALSE
@@ -172,5 +173,7 @@ ChunksPartition ==
      /\ CEnd(var, n, NumChunks(n) - 1) = n
      /\ \A i \in 0..(NumChunks(n) - 1) : CBegin(var, n, i) <= CEnd(var, n, i) /\ CEnd(var, n, i) <= n
      /\ \A i \in 1..(NumChunks(n) - 1) : CBegin(var, n, i) = CEnd(var, n, i - 1)
+\* the three arithmetic properties asserted of the repaired arithmetic only (runs that explore both variants at once)
+RepairedArithmeticHolds == var = "fixed" => (ChunksPartition /\ PredicateOnlyInRange /\ Terminates)
 OutOfRange == \E k \in 1..Len(calls) : calls[k][1] < 0 \/ calls[k][2] >= n
 =============================================================================
